@@ -26,6 +26,12 @@ def run(tier, seed):
         sc.parse_stats(p.stdout, stats)
         sc.validate(v, "Trace_FrpsPorts", (vlib.SPEC / "Trace_FrpsPorts.cfg").read_text(), tf2, "ports/quota lifecycle")
     if ok:
+        # idle (wrapped) backend connections of an http proxy closed by a client reload, for every limiter side
+        tf3 = d / "release.ndjson"
+        p = vlib.run_driver(drv, ["release", "-seed", seed, "-out", tf3], timeout=900)
+        sc.parse_stats(p.stdout, stats)
+        sc.validate(v, "Trace_FrpsLifecycle", (vlib.SPEC / "Trace_FrpsLifecycle.cfg").read_text(), tf3, "release of idle backend connections")
+    if ok:
         evs = vlib.read_ndjson(tf)
         v.sample({"events": [{k: e[k] for k in e if k in ("ev", "pxy", "ok", "path", "pxys", "res", "goroutines", "fds")} for e in evs][:16]})
     v.add_cov(evaluations=stats.get("register", 0) + stats.get("close", 0) + stats.get("drop", 0) + stats.get("replace", 0) + stats.get("heartbeat", 0),
@@ -33,9 +39,9 @@ def run(tier, seed):
               rule="cycles on one real frps: 15 proxy definitions covering tcp, udp, http (2 domains x 2 locations), https (2 domains), tcpmux, stcp, sudp, xtcp, tcp and http group members, "
                    "incl. definitions whose second domain / port / name collides with a live proxy (registration fails part-way and must roll back); terminations by close request (often followed at once by the identical "
                    "registration), connection drop, replacement by a re-login with the same run id and heartbeat timeout; after every step all resource tables are read; after every cycle goroutine and descriptor counts; "
-                   "plus the FrpsPorts histories (failures at acquire / listen / name-add with rollback); non-trivial = terminations and gate-scheduled partial failures",
+                   "plus the FrpsPorts histories (failures at acquire / listen / name-add with rollback); plus 5 real frps / frpc pairs (limit none / server / client, encryption + compression, mux) whose http proxy is closed by a client reload while up to 3 idle backend connections sit in the pool; non-trivial = terminations and gate-scheduled partial failures",
               driver_stats=stats)
-    v.assumptions += ["resource tables are read through verif-only inspectors; wrapped-transport closing under traffic is part of the C01 check",
+    v.assumptions += ["resource tables are read through verif-only inspectors; wrapped-transport closing under traffic is part of the C01 check; release of idle backend connections is observed at a counting backend",
                       "footprint slack: 12 goroutines / 8 descriptors over the first cycle"]
     v.finish()
 
